@@ -389,6 +389,45 @@ class TShift:
             st3 = np.asarray(T(st, np.stack([W, W]), dr), dtype=object)
             if st3.shape != (2, 2, 2) or not is_zero(lift(st3[1, 1, 0]) - lift(out[1, 0]), 20):
                 return Result(REFUTED, backend="algebra-normaliser", witness=dict(clause="T"), detail="T on a spin stack")
+            # k-point list: the represented Bloch function sum_G c_G exp(i (G + k).r) is shifted, the phase is exp(-i (G + k).dr);
+            # cut-off restricted (len = len(Gk2c[ik])) and full basis, two k-points
+            kv = np.empty((2, 3), dtype=object)
+            for i in range(2):
+                for c in range(3):
+                    kv[i, c] = C.var(f"k{i}{c}")
+            G3 = np.empty((3, 3), dtype=object)
+            for i in range(3):
+                for c in range(3):
+                    G3[i, c] = G[i, c] if i < 2 else C.var(f"G2{c}")
+            st2 = types.SimpleNamespace()
+            st2.G = G3
+            st2.Gk2c = [np.array([C.var("g0"), C.var("g1")], dtype=object), np.array([C.var("h0"), C.var("h1")], dtype=object)]
+            st2.active = [(np.array([0, 1]),), (np.array([0, 2]),)]
+            k2 = KStub()
+            k2._assert_gamma_only = lambda: None
+            k2.Nk = 2
+            k2.k = kv
+            st2.kpts = k2
+            Wl = [np.stack([W, W]), np.stack([W, W])]
+            outl = T(st2, Wl, dr)
+            Wf = np.empty((3, 2), dtype=object)
+            for i in range(3):
+                for j in range(2):
+                    Wf[i, j] = W[i % 2, j]
+            outf = T(st2, [np.stack([Wf, Wf]), np.stack([Wf, Wf])], dr)
+            for ik, rows in ((0, [0, 1]), (1, [0, 2])):
+                o = np.asarray(outl[ik], dtype=object)
+                for r_, gi in enumerate(rows):
+                    ph = A.exp(-A.I() * sum((G3[gi, c] + kv[ik, c]) * dr[c] for c in range(3)))
+                    if o.shape != (2, 2, 2) or not is_zero(lift(o[1, r_, 0]) - ph * W[r_, 0], 20):
+                        return Result(REFUTED, backend="algebra-normaliser", witness=dict(clause="T-k"), replayed=self.replay({})[0], replay_info=self.replay({})[1],
+                                      detail=f"T on a k-point list: coefficient of G + k is not multiplied by exp(-i (G + k).dr) (ik={ik}, cut-off basis)")
+                of = np.asarray(outf[ik], dtype=object)
+                for gi in range(3):
+                    ph = A.exp(-A.I() * sum((G3[gi, c] + kv[ik, c]) * dr[c] for c in range(3)))
+                    if of.shape != (2, 3, 2) or not is_zero(lift(of[0, gi, 1]) - ph * Wf[gi, 1], 20):
+                        return Result(REFUTED, backend="algebra-normaliser", witness=dict(clause="T-k"), replayed=self.replay({})[0], replay_info=self.replay({})[1],
+                                      detail=f"T on a k-point list: coefficient of G + k is not multiplied by exp(-i (G + k).dr) (ik={ik}, full basis)")
             return Result(DISCHARGED, backend="algebra-normaliser")
         except (A.OutsideSubset, A.Undecided, TypeError, AttributeError, ValueError, IndexError) as e:
             ok, info = self.replay({})
@@ -406,6 +445,12 @@ class TShift:
         dr = np.array([0.3, -0.2, 0.5])
         G = np.asarray(at.G)[at.active[0]]
         err = np.abs(at.T(W, dr) - np.exp(-1j * G @ dr)[:, None] * W).max()
+        at2 = native_atoms(Nk=2, Nspin=2)
+        Wl = [rnd(rng, 2, len(at2.Gk2c[ik]), 2) for ik in range(at2.kpts.Nk)]
+        out = at2.T(Wl, dr)
+        for ik in range(at2.kpts.Nk):
+            Gk = np.asarray(at2.G)[at2.active[ik]] + np.asarray(at2.kpts.k[ik])
+            err = max(err, np.abs(np.asarray(out[ik]) - np.exp(-1j * Gk @ dr)[None, :, None] * Wl[ik]).max())
         return bool(err > 1e-10), dict(max_abs_err=float(err))
 
 
